@@ -141,6 +141,8 @@ def library():
         ('custom_ms', D({"custom": "ms", "params": [650.0, 0.35]}), {'numeric'}),
         ('custom_spell', D({"custom": "wb", "params": [900.0]}), {'numeric'}),
         ('custom_comments', D({"custom": "cm", "params": [700.0, 0.4]}), {'numeric'}),
+        # two formula ranges (no analytic derivative) followed by an analytic one
+        ('two_custom_ranges', D(('>', 0.0, {"custom": "qq", "params": [2, -1]}), ('>=', 1.55, {"custom": "inner", "params": [12.0]}), ('>=', 2.55, form('zero'))), {'numeric'}),
         ('custom_assign', D(mod('sum', {"custom": "conv", "params": [2.0, 0.7]}, {"custom": "conv", "params": [3.0, 0.7]})), {'numeric'}),
         ('custom_braces', D(('>', 0.0, {"custom": "br", "params": [2.0]})), {'numeric'}),
         # hash(-1) == hash(-2) in CPython: parameter lists that differ only by -1 <-> -2 (formal charges of F and O) catch caches keyed by hash
